@@ -345,6 +345,9 @@ func ruleR03e(c *Check) {
 				reach, _ := engine.PathExists(fn, call, func(in ssa.Instruction) bool { _, r := in.(*ssa.Return); return r }, engine.PathQuery{CutInstr: engine.IsInstr(def)})
 				okAll = !reach
 			}
+			if ok, why := returnsItsUnlock(c, fn, op); ok && why == "" {
+				okAll = true // an acquire helper whose callers defer the closure it returns
+			}
 			c.Require(okAll, "R03e", "keyed-lock-released/"+c.P.FuncName(fn), "Lock("+op.Key+") is followed on every path by a deferred Unlock with the same key", "the per-target lock taken here is not released on every exit (or with a different key): the next user of this target blocks forever", c.P.InstrPos(call))
 		}
 	}
